@@ -196,12 +196,34 @@ pub struct Trace {
     /// thread is not runnable the lowest-numbered runnable one is taken.
     #[serde(default, skip_serializing_if = "Vec::is_empty")]
     pub schedule: Vec<u8>,
-    /// thr/burst: after the explicit schedule is exhausted, run round-robin.
+    /// thr/burst: seeded scheduling policy used when no explicit schedule is given.
+    #[serde(default, skip_serializing_if = "Option::is_none")]
+    pub sched: Option<SchedSpec>,
+    /// thr/burst: operations the main thread executes (followed by sync()) before the
+    /// simulated threads start.
+    #[serde(default, skip_serializing_if = "Vec::is_empty")]
+    pub prologue: Vec<OpRec>,
     #[serde(default)]
     pub callback_faults: CallbackFaults,
     /// Where the trace came from (informational).
     #[serde(default)]
     pub origin: Option<Origin>,
+}
+
+#[derive(Clone, Debug, PartialEq, Eq, Serialize, Deserialize)]
+pub struct SchedSpec {
+    /// "random" | "sticky" | "pct"
+    pub policy: String,
+    pub seed: u64,
+    /// PCT priority change points (steps).
+    #[serde(default)]
+    pub change_points: Vec<usize>,
+    /// From this step on: no faults, no starvation, round-robin scheduling.
+    pub fair_after: usize,
+    /// (thread, from_step, to_step)
+    #[serde(default)]
+    pub starve: Option<(usize, usize, usize)>,
+    pub budget: usize,
 }
 
 #[derive(Clone, Debug, PartialEq, Eq, Serialize, Deserialize)]
